@@ -481,7 +481,12 @@ def r7(ctx, cfg):
         ok = len(sc) == 1
         if ok:
             a = P.call_args(f, sc[0][1], sc[0][0])
-            ok = contains(a[1], lambda x: x[0] == "call" and x[1] == W + "next_code_id") and is_param(a[2], "creator") and is_param(a[3], "code")
+            # (the id next_code_id() yields, as it is: unwrapped in whatever way, but not computed on)
+            cs0 = []
+            contains(a[1], lambda x: cs0.append(x[1]) if x[0] == "call" else False)
+            ok = contains(a[1], lambda x: x[0] == "call" and x[1] == W + "next_code_id") and \
+                all(c == W + "next_code_id" or c.rsplit("::", 1)[-1] in ("unwrap_or_else", "unwrap", "expect", "ok_or_else", "ok_or", "into", "from") for c in cs0) and \
+                not contains(a[1], lambda x: x[0] in ("binop", "unop")) and is_param(a[2], "creator") and is_param(a[3], "code")
         ctx.ob(R, key, "auto-id=next_code_id()", ok, "store_code does not store under next_code_id()", fn=f, sample="save_code(next_code_id()?, creator, code)")
     key = WT + "duplicate_code"
     f = ctx.need_fn(R, key)
